@@ -222,8 +222,9 @@ fn parse(text: &str, allow_substvar: bool) -> Parse {
 
                 if self.current() == Some(IDENT) {
                     self.bump();
-                    // epoch: "1:2.0" lexes as IDENT COLON IDENT
-                    if self.current() == Some(COLON)
+                    // epoch: "1:2.0" lexes as IDENT COLON IDENT; with an epoch the upstream
+                    // part may contain further colons ("1:2:3")
+                    while self.current() == Some(COLON)
                         && self.tokens.len() >= 2
                         && self.tokens[self.tokens.len() - 2].0 == IDENT
                     {
